@@ -353,6 +353,9 @@ def _pow(ctx, case):
         # integer exponents in every spelling NumPy accepts
         e = [n, bool(n) if n in (0, 1) else n][int(rng.integers(2))] if pk == 'pow_pyint' else \
             [np.int64(n), np.int32(n), np.int8(n), np.array(n), np.array(n, dtype=np.int16)][int(rng.integers(5))]
+        if n >= 0 and rng.random() < 0.25:
+            # a non-negative integer exponent written as a float: x ** 2.0 is the polynomial x ** 2, also at base points with zeros
+            e = [float(n), np.float64(n), np.float32(n)][int(rng.integers(3))]
         mech = '%s:%s' % (pk, 'neg' if n < 0 else ('zero' if n == 0 else 'pos'))
         call = lambda x: x ** e
         exact = lambda a: (Q.powi(a, n), Q.majorant('powi', a, n=n))
@@ -361,7 +364,11 @@ def _pow(ctx, case):
         xd = gen.series_data(rng, D, P, xs, 'pos', 'random', cplx)
         rr = [0.5, 2.5, -1.5, 1.0 / 3][int(rng.integers(4))]
         if pk == 'pow_complex':
-            rr = complex(rr, [0.75, -1.25][int(rng.integers(2))])
+            # a complex exponent, also one whose imaginary part is zero (the result is complex all the same: NumPy's x_0 ** (0.5+0j)),
+            # then also on negative real base points, where the principal value has an imaginary part
+            rr = complex(rr, [0.75, -1.25, 0.0, 0.0][int(rng.integers(4))])
+            if rr.imag == 0.0 and not cplx and rng.random() < 0.6:
+                xd = -xd
         e = rr if pk != 'pow_npfloat' else [np.float64(rr), np.array(rr), np.float32(rr) if rr in (0.5, 2.5, -1.5) else np.float64(rr)][int(rng.integers(3))]
         call = lambda x: x ** e
         mpf = lambda z: mp.exp(O.num(rr) * mp.log(z))
